@@ -229,6 +229,7 @@ def run(ck):
     ck.gen_from_source()
     ck.coq_build(["props/C13.vo", "extract/C13_extract.vo"])
     ck.print_assumptions(["DSP.C13"], ["DSP.C13." + t for t in THEOREMS])
+    ck.source_tie("runner")
     ck.hygiene()
     ck.ocaml_build()
     ck.harness_build(["c13"])
